@@ -86,10 +86,10 @@ answers every management request; ANY interleaving of its echoed responses with 
 Then `handleResponse` never dereferences nil, ends with no batch open, and hands out data messages that are
 exactly the inputs: as many, in order, each the same in name, database, retention policy, group, dimensions,
 tags, fields (names, values, types), time; batches with their boundaries and their points in order.
-(Lean's `String` ranges over valid Unicode: inputs carrying byte strings that are not valid UTF-8 are outside this
-theorem — on the implementation they are the recorded deviation `invalid-utf8`, see findings/C19.txt and the
-driver's `judgeDeviation`. `Item.WF` is what the edge constructors guarantee: derived group ID, batch
-dimensions = sorted tag keys, distinct field keys.) -/
+(This is the reading side; strings are arbitrary byte lists here. The WRITING side marshals every request iff the
+strings are valid UTF-8 — `valid_utf8_marshals`, `invalid_utf8_aborts_session`, finding `invalid-utf8`.
+`Item.WF` is what the edge constructors guarantee: derived group ID, batch dimensions = sorted tag keys, distinct
+field keys; without the batch-header clause see `echo_identity_up_to_dims`.) -/
 theorem echo_identity (items : List Item) (hwf : ∀ it ∈ items, it.WF)
     (ctl : List Request) (hctl : ∀ r ∈ ctl, r.isData = false)
     (reqs : List Request) (hreqs : Interleave (items.flatMap Item.reqs) ctl reqs)
@@ -98,18 +98,52 @@ theorem echo_identity (items : List Item) (hwf : ∀ it ∈ items, it.WF)
     ∃ outs, handleAll {} resps = some ({}, outs) ∧
       echoIdentity (items.map Item.data) ((dataOuts outs).filterMap edgeData) = true ∧
       ctlOuts outs = (agentRun h ctl).2.1.flatMap ctlOutOf := by
-  have hdata : ∀ r ∈ items.flatMap Item.reqs, r.isData = true := by
-    intro r hr
-    obtain ⟨it, _, hit⟩ := List.mem_flatMap.mp hr
-    exact item_reqs_data it r hit
-  have hech : (agentRun h reqs).2.2 = (items.flatMap Item.reqs).flatMap echoOf := by
-    rw [agentRun_echoed, flatMap_echo_interleave hreqs hctl]
-  rw [hech] at hresps
-  obtain ⟨outs, h1, h2, h3⟩ := handleAll_interleave hresps (agentRun_direct_ctl h reqs) {} {} _ (echo_items items) (ctlOuts_msgs items)
-  refine ⟨outs, h1, ?_, ?_⟩
-  · rw [h2, dataOuts_msgs]
-    exact echoIdentity_items items hwf
-  · rw [h3, (agentRun_direct_interleave hreqs hdata h).1]
+  obtain ⟨outs, h1, h2, h3, _⟩ := echo_core items ctl hctl reqs hreqs h resps hresps
+  exact ⟨outs, h1, by rw [h2]; exact echoIdentity_items items hwf, h3⟩
+
+/-- **Echo identity up to the recorded deviation `batch-dims-rederived`** — the full characterisation of what the
+code does for ARBITRARY batch headers (no `Begin.WF`): under the same schedules, what comes back is the input with
+every batch's dimension list replaced by the sorted keys of its tags and its group ID re-derived from them
+(`devDimsOut`), and nothing else changed. For headers built by `NewBeginBatchMessage`/`SetTags` this IS the
+input (`echo_identity`); for the others see `duplicate_dimension_changes_group`. -/
+theorem echo_identity_up_to_dims (items : List Item) (hwf : ∀ it ∈ items, it.WF0)
+    (ctl : List Request) (hctl : ∀ r ∈ ctl, r.isData = false)
+    (reqs : List Request) (hreqs : Interleave (items.flatMap Item.reqs) ctl reqs)
+    (h : Peer) (resps : List Response)
+    (hresps : Interleave (agentRun h reqs).2.2 (agentRun h reqs).2.1 resps) :
+    ∃ outs, handleAll {} resps = some ({}, outs) ∧
+      echoIdentityUpToDims (items.map Item.data) ((dataOuts outs).filterMap edgeData) = true := by
+  obtain ⟨outs, h1, h2, _, _⟩ := echo_core items ctl hctl reqs hreqs h resps hresps
+  exact ⟨outs, h1, by rw [h2]; exact echoIdentityUpToDims_items items hwf⟩
+
+/-- Counterexample behind finding `batch-dims-rederived`: the header `GroupByNode` builds for `groupBy('a','a')`
+(`SetTagsAndDimensions` with the dimension named twice) has group ID `a=x,a=x`; the batch that comes back through
+the model of the boundary has dimensions `[a]` and group ID `a=x` — not the same batch
+(replayed on the implementation by corpus/C19/finding-batch-dims-rederived.ops). -/
+theorem duplicate_dimension_changes_group :
+    ∃ (b : Begin) (pts : List BP) (out : EdgeMsg),
+      b = (newBegin [109] [([97], [120])] false 5 1).setTagsAndDimensions [([97], [120])] false [[97], [97]] ∧
+      (Session.send {} (.buffered b pts)).map (·.2) = some [.msg out] ∧
+      (edgeData out).map (sameData (.batch b pts)) = some false ∧ devDims (.batch b pts) = true :=
+  ⟨_, [⟨[([118], .int 1)], [([97], [120])], 4⟩],
+   .buffered (newBegin [109] [([97], [120])] false 5 1) [⟨[([118], .int 1)], [([97], [120])], 4⟩], rfl, by decide, by decide, by decide⟩
+
+/-! ### Strings that are not valid UTF-8 (finding `invalid-utf8`) -/
+
+/-- A message all of whose strings are valid UTF-8 never makes `proto.Marshal` fail: every request the server
+writes for it marshals. (So for such inputs the write side never aborts and `echo_identity` applies.) -/
+theorem valid_utf8_marshals (it : Item) (h : devUtf8 it.data = false) : ∀ r ∈ it.reqs, marshalOK r = true :=
+  marshalOK_of_valid it h
+
+/-- Counterexample behind finding `invalid-utf8`: a well-formed point whose string field holds the byte `0xFF`
+(a Go string, not UTF-8) makes the model of `writeData` fail to marshal the request; the session aborts, nothing
+comes back for it, and the VALID point sent after it is lost too
+(replayed on the implementation by corpus/C19/finding-invalid-utf8.ops). -/
+theorem invalid_utf8_aborts_session :
+    ∃ (p q : Point), p.WF ∧ q.WF ∧ devUtf8 (.point p) = true ∧ devUtf8 (.point q) = false ∧
+      ∃ s, Session.send {} (.point p) = some (s, []) ∧ s.aborted = true ∧ Session.send s (.point q) = some (s, []) :=
+  ⟨newPoint [99] [100] [114] false [] [([118], .str [0xFF])] [] 2, newPoint [99] [100] [114] false [] [([118], .int 3)] [] 3,
+   ⟨by decide, rfl⟩, ⟨by decide, rfl⟩, by decide, by decide, { aborted := true }, rfl, rfl, rfl⟩
 
 /-! ### Snapshot / restore -/
 
@@ -125,18 +159,9 @@ theorem snapshot_restore_bytes (items : List Item)
     ∃ outs, handleAll {} resps = some ({}, outs) ∧
       outs.filterMap snapOf = (ctl.filter isSnapshotReq).map (fun _ => h.snap) ∧
       (agentRun h reqs).1.restored = lastRestore ctl h.restored := by
-  have hdata : ∀ r ∈ items.flatMap Item.reqs, r.isData = true := by
-    intro r hr
-    obtain ⟨it, _, hit⟩ := List.mem_flatMap.mp hr
-    exact item_reqs_data it r hit
-  have hech : (agentRun h reqs).2.2 = (items.flatMap Item.reqs).flatMap echoOf := by
-    rw [agentRun_echoed, flatMap_echo_interleave hreqs hctl]
-  rw [hech] at hresps
-  obtain ⟨outs, h1, _, h3⟩ := handleAll_interleave hresps (agentRun_direct_ctl h reqs) {} {} _ (echo_items items) (ctlOuts_msgs items)
+  obtain ⟨outs, h1, _, h3, h4⟩ := echo_core items ctl hctl reqs hreqs h resps hresps
   have hsn := agentRun_ctl_snap ctl h
-  refine ⟨outs, h1, ?_, ?_⟩
-  · rw [filterMap_snapOf_ctlOuts, h3, (agentRun_direct_interleave hreqs hdata h).1, hsn.1]
-  · rw [(agentRun_direct_interleave hreqs hdata h).2, hsn.2.1]
+  exact ⟨outs, h1, by rw [filterMap_snapOf_ctlOuts, h3, hsn.1], by rw [h4, hsn.2.1]⟩
 
 /-! ### Both halves together -/
 
@@ -183,9 +208,12 @@ example : putUvarint 300 = [172, 2] ∧ readUvarint [[172], [], [2, 7, 7]] = .ok
 /-- Two frames (the second empty) read back from one-byte reads with the last byte carrying `io.EOF`. -/
 example : readAll true [[2], [8], [42], [0]] = ([[8, 42], []], RdErr.eof) := by decide
 
-def exPoint : Point := newPoint "cpu" "db" "rp" true ["host"] [("v", .float 0x7ff8000000000001), ("n", .int 9007199254740993), ("s", .str "é\n"), ("b", .bool true)] [("host", "a")] 1
-def exB : Begin := newBegin "m" [("dc", "x")] false 5 2
-def exBP1 : BP := ⟨[("v", .int (-1))], [("dc", "x")], 4⟩
+/-- cpu / db / rp, by-name, dimension `host`; fields v (NaN with payload), n (2^53+1), s ("é\n"), b. -/
+def exPoint : Point := newPoint [99, 112, 117] [100, 98] [114, 112] true [[104, 111, 115, 116]]
+  [([118], .float 0x7ff8000000000001), ([110], .int 9007199254740993), ([115], .str [0xC3, 0xA9, 10]), ([98], .bool true)]
+  [([104, 111, 115, 116], [97])] 1
+def exB : Begin := newBegin [109] [([100, 99], [120])] false 5 2
+def exBP1 : BP := ⟨[([118], .int (-1))], [([100, 99], [120])], 4⟩
 def exBP2 : BP := ⟨[], [], 5⟩
 def exBatch : Item := .batch false exB [exBP1, exBP2]
 
